@@ -81,14 +81,22 @@ fn continuous_cases(run: &Run) -> Vec<Cont> {
             if a >= 20.0 && !(0.1..=10.0).contains(&b) {
                 continue; // β^α leaves the f64 range; the cross product of extremes is not claimed
             }
-            let d = Gamma::new(a, b);
+          for via in [false, true] {
+            let d = if via {
+                let mut t = Gamma::new(b + 0.75, a + 2.0);
+                t.set_beta(b);
+                t.set_alpha(a);
+                t
+            } else {
+                Gamma::new(a, b)
+            };
             let m = a / b;
             let sd = a.sqrt() / b;
             let mut grid = logspace(m * 1e-6, m * 1e3, np / 2);
             grid.extend(linspace((m - 8.0 * sd).max(m * 1e-3), m + 12.0 * sd, np / 2));
             v.push(Cont {
                 law: "Gamma",
-                params: format!("alpha={} beta={}", a, b),
+                params: format!("alpha={} beta={}{}", a, b, if via { " (reached through set_beta, set_alpha)" } else { "" }),
                 pdf: Box::new(move |x| d.pdf(x)),
                 ln_pdf: Box::new(move |x| d.ln_pdf(x)),
                 ref_ln: Box::new(move |x| if x <= 0.0 { f64::NEG_INFINITY } else { a * b.ln() - lgam(a) + (a - 1.0) * x.ln() - b * x }),
@@ -99,20 +107,30 @@ fn continuous_cases(run: &Run) -> Vec<Cont> {
                 tol: 1e-10,
                 integrate: if a >= 2.0 { Some((0.0, m + 40.0 * sd + 40.0 / b)) } else { None },
             });
+          }
         }
     }
     // Beta
     let bshapes = [0.2, 0.5, 1.0, 1.5, 3.0, 20.0, 60.0];
     for &a in &bshapes {
         for &b in &bshapes {
-            let d = Beta::new(a, b);
+          // every parameter pair on a fresh object and on one that reached it through its setters
+          for via in [false, true] {
+            let d = if via {
+                let mut t = Beta::new(b + 0.75, a + 2.0);
+                t.set_alpha(a);
+                t.set_beta(b);
+                t
+            } else {
+                Beta::new(a, b)
+            };
             let mut grid = linspace(1e-6, 1.0 - 1e-6, np);
             grid.extend(logspace(1e-12, 1e-3, 20));
             grid.extend(logspace(1e-12, 1e-3, 20).iter().map(|t| 1.0 - t));
             let s = a + b;
             v.push(Cont {
                 law: "Beta",
-                params: format!("alpha={} beta={}", a, b),
+                params: format!("alpha={} beta={}{}", a, b, if via { " (reached through set_alpha, set_beta)" } else { "" }),
                 pdf: Box::new(move |x| d.pdf(x)),
                 ln_pdf: Box::new(move |x| d.ln_pdf(x)),
                 ref_ln: Box::new(move |x| if !(0.0..=1.0).contains(&x) { f64::NEG_INFINITY } else { (a - 1.0) * x.ln() + (b - 1.0) * c_log1p(-x) - (lgam(a) + lgam(b) - lgam(a + b)) }),
@@ -123,17 +141,25 @@ fn continuous_cases(run: &Run) -> Vec<Cont> {
                 tol: 1e-10,
                 integrate: if a >= 2.0 && b >= 2.0 { Some((0.0, 1.0)) } else { None },
             });
+          }
         }
     }
     // ChiSquared
     for k in (1..=8usize).chain([30, 200]) {
-        let d = ChiSquared::new(k);
+      for via in [false, true] {
+        let d = if via {
+            let mut t = ChiSquared::new(k + 3);
+            t.set_dof(k);
+            t
+        } else {
+            ChiSquared::new(k)
+        };
         let kf = k as f64;
         let mut grid = logspace(kf * 1e-6, kf * 50.0, np / 2);
         grid.extend(linspace(kf * 0.01, kf + 12.0 * (2.0 * kf).sqrt(), np / 2));
         v.push(Cont {
             law: "ChiSquared",
-            params: format!("dof={}", k),
+            params: format!("dof={}{}", k, if via { " (reached through set_dof)" } else { "" }),
             pdf: Box::new(move |x| d.pdf(x)),
             ln_pdf: Box::new(move |x| d.ln_pdf(x)),
             ref_ln: Box::new(move |x| if x <= 0.0 { f64::NEG_INFINITY } else { (kf / 2.0 - 1.0) * x.ln() - x / 2.0 - (kf / 2.0) * 2f64.ln() - lgam(kf / 2.0) }),
@@ -144,16 +170,24 @@ fn continuous_cases(run: &Run) -> Vec<Cont> {
             tol: 1e-10,
             integrate: if k >= 4 { Some((0.0, kf + 60.0 * (2.0 * kf).sqrt() + 80.0)) } else { None },
         });
+      }
     }
     // T
     for &nu in &[0.5, 1.0, 2.0, 3.0, 4.0, 5.0, 6.0, 7.0, 8.0, 30.0, 200.0] {
-        let d = T::new(nu);
+      for via in [false, true] {
+        let d = if via {
+            let mut t = T::new(nu + 1.5);
+            t.set_dof(nu);
+            t
+        } else {
+            T::new(nu)
+        };
         let mut grid = linspace(-12.0, 12.0, np);
         grid.extend(logspace(12.0, 1e6, 30));
         grid.extend(logspace(12.0, 1e6, 30).iter().map(|t| -t));
         v.push(Cont {
             law: "T",
-            params: format!("dof={}", nu),
+            params: format!("dof={}{}", nu, if via { " (reached through set_dof)" } else { "" }),
             pdf: Box::new(move |x| d.pdf(x)),
             ln_pdf: Box::new(move |x| d.ln_pdf(x)),
             ref_ln: Box::new(move |x| lgam((nu + 1.0) / 2.0) - lgam(nu / 2.0) - 0.5 * (nu * PI).ln() - (nu + 1.0) / 2.0 * c_log1p(x * x / nu)),
@@ -164,6 +198,7 @@ fn continuous_cases(run: &Run) -> Vec<Cont> {
             tol: 1e-10,
             integrate: if nu >= 30.0 { Some((-400.0, 400.0)) } else { None },
         });
+      }
     }
     // Pareto
     for &a in &[0.5, 1.0, 1.5, 2.0, 3.0, 20.0] {
